@@ -20,12 +20,16 @@ def run(chk):
             for a, b in PHIS:
                 if b ** len(E) > 4100:
                     continue
-                traces.append(P.run_perc({"V": V, "E": E, "a": a, "b": b, "mode": ("tree",)}))
+                # vertex ids need not be 0..N-1: 1-based and strided relabellings of the same graph
+                f = [lambda v: v, lambda v: v + 1, lambda v: 7 + 3 * v][(mask + a) % 3]
+                traces.append(P.run_perc({"V": [f(v) for v in V], "E": [[f(x), f(y)] for x, y in E], "a": a, "b": b, "mode": ("tree",)}))
     for M in range(1, 7):                     # stars: (N*S - 1)/M ~ Binomial(M, phi)/M
         for a, b in PHIS:
             if b ** M > 4100 and not thorough:
                 continue
-            traces.append(P.run_perc({"V": list(range(M + 1)), "E": [[0, i] for i in range(1, M + 1)], "a": a, "b": b, "mode": ("tree",)}))
+            hub = [0, M, 50][(M + a) % 3]          # the hub need not be the first or the smallest vertex
+            leaves = [v for v in range(0, M + 1) if v != hub] if hub <= M else list(range(M))
+            traces.append(P.run_perc({"V": leaves[:1] + [hub] + leaves[1:], "E": [[hub, v] for v in leaves], "a": a, "b": b, "mode": ("tree",)}))
     chk.exhaustive["the whole aligned RNG tree for every graph on <= 4 vertices (isolated vertices allowed) and stars with <= 6 leaves, phi in {0,1/3,1/2,3/4,1}"] = \
         all(t["exhaustive"] for t in traces if not t["raised"])
     und = [t for t in traces if t.get("undecided")]
